@@ -2,6 +2,7 @@ package kit
 
 import (
 	"fmt"
+	"runtime"
 	"strings"
 	"testing"
 	"testing/synctest"
@@ -16,7 +17,17 @@ import (
 // take the worker loop down with it. The "blocked goroutines remain" panic raised
 // at the end of a bubble is recovered and returned as leak != "" (classified by
 // the caller).
+// BubblePanic carries a panic of the bubble's root function (the code under test called directly from the harness) to
+// the goroutine that started the bubble, together with the stack at the point of the panic.
+type BubblePanic struct {
+	Val   any
+	Stack string
+}
+
+func (b *BubblePanic) Error() string { return fmt.Sprintf("panic inside the simulation bubble: %v", b.Val) }
+
 func Bubble(t *testing.T, f func()) (leak string) {
+	var inner *BubblePanic
 	done := make(chan string, 1)
 	go func() {
 		res := ""
@@ -31,9 +42,20 @@ func Bubble(t *testing.T, f func()) (leak string) {
 			}
 			done <- res
 		}()
-		synctest.Test(t, func(*testing.T) { f() })
+		synctest.Test(t, func(*testing.T) {
+			defer func() {
+				if r := recover(); r != nil {
+					buf := make([]byte, 1<<16)
+					inner = &BubblePanic{Val: r, Stack: string(buf[:runtime.Stack(buf, false)])}
+				}
+			}()
+			f()
+		})
 	}()
 	leak = <-done
+	if inner != nil {
+		panic(inner)
+	}
 	if strings.HasPrefix(leak, "PANIC: ") {
 		panic(leak)
 	}
